@@ -46,6 +46,42 @@
     pub(crate) fn lzma2_start_independent_stub<W: Write>(_s: &mut LZMA2Writer<W>) -> crate::Result<()> { Ok(()) }
     pub(crate) fn lz_noop_stub(_s: &mut crate::enc::lz::LZEncoder) {}
 
+    // ---- LZMA2Writer chunk-level contract used by the MT worker harnesses (kani/enc/lzma2_writer_mt.rs)
+    pub(crate) static mut WK_NEW: u32 = 0;
+    /// LZMA2Writer by contract, chunk level (the real chunk protocol is C01.l2.w): a new writer announces a dictionary
+    /// reset with its first chunk (no preset dictionary in a worker), later chunks of the same writer do not; `write`
+    /// accepts every byte (fill_window stub under the real write loop); each write_chunk emits one byte
+    /// (0xE0 | n) or (0x80 | n) where n = bytes this chunk covers, and clears the pending count.
+    pub(crate) fn wk_new<W: Write>(inner: W, options: LZMA2Options) -> LZMA2Writer<W> {
+        unsafe { WK_NEW += 1; }
+        assert!(options.lzma_options.preset_dict.is_none(), "worker units must not inherit the preset dictionary");
+        let mut w = lzma2_new_zeroed(inner, options);
+        w.dict_reset_needed = true;
+        w.state_reset_needed = true;
+        w.props_needed = true;
+        w
+    }
+    pub(crate) fn wk_write_chunk<W: Write>(s: &mut LZMA2Writer<W>) -> crate::Result<()> {
+        assert!(s.pending_size > 0 && s.pending_size < 16);
+        let tag = if s.dict_reset_needed { 0xE0u8 } else { 0x80u8 };
+        s.inner.write_all(&[tag | s.pending_size as u8])?;
+        s.dict_reset_needed = false;
+        s.state_reset_needed = false;
+        s.props_needed = false;
+        s.uncompressed_size += s.pending_size as u64;
+        s.pending_size = 0;
+        Ok(())
+    }
+    pub(crate) fn wk_start_independent<W: Write>(s: &mut LZMA2Writer<W>) -> crate::Result<()> {
+        if s.pending_size > 0 { wk_write_chunk(s)?; }
+        s.dict_reset_needed = true;
+        s.state_reset_needed = true;
+        s.props_needed = true;
+        s.uncompressed_size = 0;
+        Ok(())
+    }
+
+
     /// C17.enc: LZMAOptions::get_memory_usage (KiB) for every dictionary size 4 KiB..1 GiB, both modes, both match
     /// finders: no overflow; estimate >= window buffer + hash tables + chain/tree + optimum table (the allocations of
     /// LZEncoder::new, Hash234::new, HC4/BT4::new, NormalEncoderMode::new) and <= that sum + 1/8 + 512 KiB.
